@@ -71,6 +71,8 @@ type Interp struct {
 	growExact bool
 	constCache map[*ssa.Const]Value
 	strCache   map[string]StrV
+	bounds     map[*Term]*ival
+	quickHits  int
 }
 
 func (in *Interp) where() string {
